@@ -222,9 +222,29 @@ def _check(rep, tier, tag, made):
     nrec = 900 if thorough else 200
     big = [(16, 16, 1), (20, 10, 2), (24, 12, 1), (1, 16, 16), (2, 12, 12)]
     nbig = 0
+    # whole planes removed along one direction (class "removed"): the remaining coordinates of a composite size N may all have
+    # smaller denominators than N (e.g. 0, 1/3, 1/2, 2/3 of a 6-mesh) - the list is a mesh only if the kept planes are a whole
+    # coarser mesh.  Deterministic sub-classes per N: planes coprime to N removed; multiples of a prime factor kept / removed;
+    # seeded subsets
+    presets = []
+    for NN in (4, 6, 8, 9, 10, 12) + ((14, 15, 18, 20) if thorough else ()):
+        primes = [q for q in (2, 3, 5, 7) if NN % q == 0]
+        keeps = [[j for j in range(NN) if math.gcd(j, NN) != 1]]
+        keeps += [[j for j in range(NN) if j % q == 0] for q in primes] + [[j for j in range(NN) if j % q != 0 or j == 0] for q in primes]
+        keeps += [sorted(rng.sample(range(NN), rng.randint(1, NN - 1))) for _ in range(2)]
+        for keep in keeps:
+            if 0 < len(keep) < NN:
+                presets.append((NN, keep))
+    nrec += len(presets)
+    planes = dict(records=0)
     while len(recs) < nrec:
         r = rng.random()
-        if nbig < (10 if thorough else 3):   # a few larger 3-D meshes
+        preset = presets.pop() if presets else None
+        if preset is not None:
+            n = [rng.choice([1, 1, 2, 3]) for _ in range(3)]
+            pax = rng.randrange(3)
+            n[pax] = preset[0]
+        elif nbig < (10 if thorough else 3):   # a few larger 3-D meshes
             n = list(big[nbig % len(big)])
             nbig += 1
         elif r < 0.15:      # one-dimensional meshes up to the supported denominator
@@ -244,7 +264,12 @@ def _check(rep, tier, tag, made):
         mesh = [(i * (den // n[0]), j * (den // n[1]), l * (den // n[2])) for i in range(n[0]) for j in range(n[1]) for l in range(n[2])]
         kind = rng.choice(["complete", "complete", "removed", "dup", "shifted"]) if Q > 1 else rng.choice(["complete", "complete", "removed", "dup"])
         pts = list(mesh)
-        if kind == "removed":
+        if preset is not None:
+            kind = "removed"
+            step = den // n[pax]
+            pts = [p_ for p_ in mesh if (p_[pax] // step) in preset[1]]
+            planes["records"] += 1
+        elif kind == "removed":
             if N == 1:
                 continue
             for _ in range(rng.randint(1, min(3, N - 1))):
@@ -258,7 +283,7 @@ def _check(rep, tier, tag, made):
                 sh[rng.randrange(3)] = 1
             pts = [tuple((p[a] + sh[a] * (den // (Q * n[a]))) % den for a in range(3)) for p in pts]
         rng.shuffle(pts)
-        which = rng.choice(["none", "mesh", "coarser", "coarser", "any"])
+        which = rng.choice(["none", "mesh", "coarser", "coarser", "any"]) if preset is None else rng.choice(["none", "none", "none", "mesh", "coarser"])
         grid = []
         if which == "mesh":
             grid = list(n)
@@ -325,6 +350,9 @@ def _check(rep, tier, tag, made):
     if outside and not rep.violations:
         raise MachineryError(f"recorded call outside the model: {outside[:3]} {str(recs[outside[0][0]])[:300]}")
     rep.part("records_info", **rinfo)
+    if not rep.violations and planes["records"] < 20:
+        raise MachineryError(f"only {planes['records']} records with whole planes removed")
+    rep.part("planes_removed", **planes)
     rep.sample(dict(recorded=dict(recs[0], pts=recs[0]["pts"][:6])))
     if badrecs:
         missed = [c for j, (_, c) in enumerate(badrecs) if c not in b2.get(j, [])]
